@@ -113,6 +113,13 @@ func Load(dir string) (*Engine, error) {
 	if err != nil || os.Getenv("ALLIANCECHECK_NOINLINE") != "" {
 		return e, err
 	}
+	funcRenames = detectRenames(e.Pkgs)
+	if len(funcRenames) > 0 {
+		// keys are computed while loading: load again with the rename table in place
+		if e2, err2 := loadOverlay(dir, nil); err2 == nil {
+			e = e2
+		}
+	}
 	overlay := map[string][]byte{}
 	var inlined, notes []string
 	cur := e
@@ -124,6 +131,11 @@ func Load(dir string) (*Engine, error) {
 		}
 		for k, v := range ov {
 			overlay[k] = v
+		}
+		if d := os.Getenv("ALLIANCECHECK_DEBUG_INLINE"); strings.HasPrefix(d, "/") {
+			for k, v := range ov {
+				_ = os.WriteFile(filepath.Join(d, fmt.Sprintf("r%d_%s", round, filepath.Base(k))), v, 0o644)
+			}
 		}
 		next, err := loadOverlay(dir, overlay)
 		if err != nil {
@@ -183,7 +195,10 @@ func loadOverlay(dir string, overlay map[string][]byte) (*Engine, error) {
 	os.Unsetenv("GOWORK")
 	cfg := &packages.Config{
 		Mode: packages.LoadSyntax, Dir: dir, Tests: false, Overlay: overlay,
-		Env: append(os.Environ(), "GOFLAGS=-mod=mod", "GOPROXY=off", "GOSUMDB=off", "GOTOOLCHAIN=local", "GOWORK=off"),
+		// -trimpath keeps the directory out of the build cache keys, so that the export data of unchanged packages is
+		// shared between scratch copies of the repository (the self-test analyses hundreds of them)
+		BuildFlags: []string{"-trimpath"},
+		Env:        append(os.Environ(), "GOFLAGS=-mod=mod", "GOPROXY=off", "GOSUMDB=off", "GOTOOLCHAIN=local", "GOWORK=off"),
 	}
 	pkgs, err := packages.Load(cfg, "./x/alliance/...", "./custom/...", "./app/...", pStakingKeep)
 	if err != nil {
@@ -308,12 +323,24 @@ func FuncKey(fn *ssa.Function) string {
 		pkg = alias(fn.Object().Pkg().Path())
 	}
 	if fn.Signature != nil && fn.Signature.Recv() != nil {
-		return pkg + "." + recvName(fn.Signature.Recv().Type()) + "." + fn.Name()
+		return renamed(pkg + "." + recvName(fn.Signature.Recv().Type()) + "." + fn.Name())
 	}
 	if o := fn.Origin(); o != nil && o != fn {
 		return FuncKey(o)
 	}
-	return pkg + "." + fn.Name()
+	return renamed(pkg + "." + fn.Name())
+}
+
+// funcRenames maps the key of a function of the current tree to the key it had in the reviewed tree when it is the
+// unique unexported function that took the place of a reviewed function with the same receiver and parameter types
+// (a rename).  Rules and tables keep addressing it by the reviewed name.
+var funcRenames = map[string]string{}
+
+func renamed(k string) string {
+	if o, ok := funcRenames[k]; ok {
+		return o
+	}
+	return k
 }
 
 func recvName(t types.Type) string {
